@@ -487,6 +487,16 @@ class _Chains:
             vals = assigned_value(self.fi.node, e.id)
             if len(vals) == 1:
                 return self.chain(vals[0], depth + 1)
+            if len(vals) > 1:
+                # a local re-bound in straight-line code (`x = f(v); x = x.replace(..)`): the use sees the last
+                # binding before it (all bindings must sit in one block)
+                binds = [b for b in stores(self.fi.node, into_defs=False) if b.path == e.id]
+                use = enclosing_stmt(e)
+                if all(b.kind == "assign" and b.value is not None and parent(b.node) is parent(binds[0].node) for b in binds) \
+                        and use is not None:
+                    before = [b for b in binds if _precedes(b.node, use)]
+                    if before:
+                        return self.chain(before[-1].value, depth + 1)
             return None
         if isinstance(e, ast.Call):
             if isinstance(e.func, ast.Attribute):
@@ -717,6 +727,10 @@ def _step(rs: list, ds: list):
     if d0 and d0[0] == "meth" and d0[1] in ("strip", "rstrip", "lstrip") and not d0[2] \
             and any(op[0] == "call" and ".parse_" in op[1] for op in ds[1:]):
         return 0, 1, True, ""       # surrounding whitespace removed before a whitespace-tolerant parser
+    if r0 and r0[0] == "meth" and r0[1] == "replace" and len(r0[2]) == 2 and isinstance(r0[2][0], str) \
+            and len(r0[2][0]) == 1 and r0[2][1] == "&#%d;" % ord(r0[2][0]) \
+            and any(op[0] == "call" and op[1].endswith(".parse_xml") for op in ds):
+        return 1, 0, True, ""       # character written as an XML character reference; the XML parser decodes it
     if r0 and r0[0] == "suffix":
         s = r0[2][0]
         if d0 and d0[0] == "meth" and d0[1] in ("partition", "split") and d0[2] and is_idx(d1, 0):
@@ -864,6 +878,33 @@ def _reader_shortcut_meaning(ctx, ci: ClassInfo, rd: FuncInfo, main_chain: list)
                 f"returns {k!r}: such a value does not survive serialise-then-parse")
 
 
+LINE_UNSAFE = ("\n", "\t", "\r")
+
+
+def _line_safety(ctx, ci: ClassInfo, wr: FuncInfo, wchain: list, rchain: list):
+    """A field whose text form carries free text verbatim (the value itself, or an XML document of it) is cut by the
+    line tokeniser at a tab / newline and by the reader at its terminator: the writer must escape those characters
+    (and something on the read side must undo it), else values containing them do not survive the text form."""
+    raw = all(op[0] in ("suffix", "prefix") for op in wchain)
+    xml = any(op[0] == "call" and op[1].endswith(".format_xml") for op in wchain)
+    if not (raw or xml):
+        return
+    seps = [op[2][0] for op in rchain if op[0] == "meth" and op[1] in ("partition", "split") and op[2]
+            and isinstance(op[2][0], str)]
+    need = sorted(set(seps) | set(LINE_UNSAFE))
+    escaped = {op[2][0] for op in wchain if op[0] == "meth" and op[1] == "replace" and len(op[2]) == 2
+               and isinstance(op[2][0], str) and isinstance(op[2][1], str)
+               and not any(u in op[2][1] for u in need)}
+    undone = xml and any(op[0] == "call" and op[1].endswith(".parse_xml") for op in rchain)
+    undone = undone or all(any(o[0] == "meth" and o[1] == "replace" and len(o[2]) == 2 and o[2][1] == ch for o in rchain)
+                           for ch in escaped)
+    missing = [ch for ch in need if ch not in escaped]
+    _ob(ctx, "C20.R2", f"{ci.name}: free-text values survive the line format", not missing and undone, ctx.w(wr, wr.node),
+        f"the text form carries the value verbatim but {missing!r} are not escaped: the reader cuts at its terminator "
+        f"and the line tokeniser at tab / newline (and strips surrounding blanks), so such values come back truncated, "
+        f"or the whole line (and with it the node) is dropped")
+
+
 def r2(ctx):
     repo = ctx.repo
     ctx.rule("C20.R2", "every SchemaFieldSerializer subclass defines both text directions, its text and LLSD "
@@ -872,6 +913,13 @@ def r2(ctx):
     subs = sorted(_subclasses(repo, base), key=lambda c: c.name)
     ctx.floor("C20.R2", "SchemaFieldSerializer subclasses", len(subs), 7)
     npairs = 0
+    # serializer classes that some dataclass field of the schema really uses (bare class or instance)
+    used_specs = set()
+    for mod in repo.modules.values():
+        for c in find_calls(mod.tree, "schema_field"):
+            sp = c.args[0] if c.args else kw(c, "spec")
+            if sp is not None:
+                used_specs.add(((ap(sp.func) if isinstance(sp, ast.Call) else ap(sp)) or "").split(".")[-1])
     for ci in subs:
         where = f"{ci.module.rel}:{ci.node.lineno}"
         res = {m: _lookup_method(repo, ci, m) for m in ("serialize", "deserialize", "to_llsd", "from_llsd")}
@@ -890,6 +938,9 @@ def r2(ctx):
         npairs += 1
         _shortcut_obligations(ctx, ci, res["serialize"], res["deserialize"])
         _reader_shortcut_meaning(ctx, ci, res["deserialize"], _for_flavour(res["deserialize"], db, OTHER))
+        if ci.name in used_specs:
+            _line_safety(ctx, ci, res["serialize"], _for_flavour(res["serialize"], sb, OTHER),
+                         _for_flavour(res["deserialize"], db, OTHER))
         # LLSD pair per flavour either side distinguishes
         tb, _ = _branches(repo, res["to_llsd"])
         fb, _ = _branches(repo, res["from_llsd"])
@@ -1292,6 +1343,15 @@ def r3(ctx):
                        sn == fd.name, ctx.w(c.module, fd.node),
                        f"{sc.name}.SCHEMA_NAME is {sn!r}: to_writer emits that header, from_reader looks for "
                        f"field {fd.name!r}")
+        # a field marked llsd_only is skipped by to_writer: the legacy text form cannot carry it
+        for fd in fields.values():
+            if fd.owner is c and fd.is_schema:
+                lo = kw(fd.call, "llsd_only")
+                if isinstance(lo, ast.Constant) and lo.value is True:
+                    _ob(ctx, "C20.R3", f"{c.name}.{fd.name}: the legacy text form carries the field", False,
+                        ctx.w(c.module, fd.node),
+                        f"{fd.name} is declared llsd_only: to_writer never emits it, so a {c.name} whose {fd.name} differs "
+                        f"from the field's default does not survive to_str() -> from_str()")
         # text table == field names; renames only under a flavour and only of existing keys
         renames: list = []
         text_keys = _fields_table(ctx, c, None, renames)
